@@ -83,6 +83,12 @@ type SessionInfo struct {
 	ResetRecovered     bool // a Reset that every leaf accepted followed a failed one
 	RecoveredAfterRead bool // ... with HasNext/Next calls in between
 	RecoveredNested    bool // ... on a root over at least one mixer
+	// runs of consecutive successful Resets of a root that a HasNext/Next followed
+	ResetRun              bool // >= 2 in a row
+	LongResetRun          bool // >= 255 in a row
+	ResetRunMult256       bool // a multiple of 256 in a row
+	ResetRunMult256Look   bool // ... begun on a loaded look-ahead
+	ResetRunMult256Nested bool // ... on a root over at least one mixer
 }
 
 const (
@@ -233,6 +239,9 @@ type liveRound struct {
 	flakies    []*flaky
 	limbo      bool
 	limboCalls int
+	// consecutive successful Resets since the last HasNext/Next, and whether the first of them met a look-ahead
+	consec     int
+	consecLook bool
 }
 
 func (lr *liveRound) pending() bool {
@@ -410,12 +419,21 @@ func (lr *liveRound) next(where lazyStr, info *SessionInfo) *vstat.Violation {
 }
 
 func (lr *liveRound) runProg(phase, prog string, info *SessionInfo) *vstat.Violation {
-	for p := 0; p < len(prog) && !lr.dead; p++ {
-		where := lazyStr(func() string { return lr.where(phase, p, prog) })
+	for _, tk := range parseProg(prog) {
+		if lr.dead {
+			break
+		}
+		p, rep := tk.pos, 0
+		where := lazyStr(func() string {
+			if tk.n > 1 {
+				return fmt.Sprintf("%s (Reset %d of a run of %d)", lr.where(phase, p, prog), rep+1, tk.n)
+			}
+			return lr.where(phase, p, prog)
+		})
 		lr.calls++
-		if lr.limbo && prog[p] != 'r' {
+		if lr.limbo && tk.ch != 'r' {
 			// between a failed Reset and the next accepted one: the call is made, nothing is judged
-			if prog[p] == 'h' {
+			if tk.ch == 'h' {
 				lr.root.mix.HasNext()
 			} else {
 				lr.root.mix.Next()
@@ -423,7 +441,10 @@ func (lr *liveRound) runProg(phase, prog string, info *SessionInfo) *vstat.Viola
 			lr.limboCalls++
 			continue
 		}
-		switch prog[p] {
+		if tk.ch != 'r' {
+			lr.endConsec(info)
+		}
+		switch tk.ch {
 		case 'h':
 			got := lr.root.mix.HasNext()
 			if lr.selViol != nil {
@@ -445,39 +466,66 @@ func (lr *liveRound) runProg(phase, prog string, info *SessionInfo) *vstat.Viola
 				return v
 			}
 		case 'r':
-			transient := lr.resettable && lr.pending()
-			err := lr.root.mix.Reset()
-			if lr.selViol != nil {
-				return vstat.V(lr.selViol.Sig, "%s: during Reset: %s", where, lr.selViol.Msg)
-			}
-			if transient {
-				// a leaf had a failure to deliver: neither the result nor the state of the tree is judged until a
-				// Reset that every leaf accepts
-				info.ResetTransient = true
-				lr.limbo, lr.limboCalls, lr.lastH = true, 0, nil
-				break
-			}
-			if !lr.resettable {
-				info.ResetRefused = true
-				if err == nil {
-					return vstat.V("mixer:reset-no-error", "%s: Reset returned nil although a leaf (kinds %v) cannot be reset", where, lr.r.Kinds)
+			for rep = 0; rep < tk.n && !lr.dead; rep++ {
+				transient := lr.resettable && lr.pending()
+				err := lr.root.mix.Reset()
+				if lr.selViol != nil {
+					return vstat.V(lr.selViol.Sig, "%s: during Reset: %s", where, lr.selViol.Msg)
 				}
-				lr.dead = true // state after a refused Reset is undocumented
-				break
+				if transient {
+					// a leaf had a failure to deliver: neither the result nor the state of the tree is judged until a
+					// Reset that every leaf accepts
+					info.ResetTransient = true
+					lr.limbo, lr.limboCalls, lr.lastH = true, 0, nil
+					lr.consec, lr.consecLook = 0, false
+					continue
+				}
+				if !lr.resettable {
+					info.ResetRefused = true
+					if err == nil {
+						return vstat.V("mixer:reset-no-error", "%s: Reset returned nil although a leaf (kinds %v) cannot be reset", where, lr.r.Kinds)
+					}
+					lr.dead = true // state after a refused Reset is undocumented
+					break
+				}
+				if err != nil {
+					return vstat.V("mixer:reset-failed", "%s: Reset returned %v although every leaf can be reset%s", where, err, flakyNote(lr.flakies...))
+				}
+				lr.recovered(info)
+				if lr.root.depth >= 2 {
+					info.ResetNested = true
+				}
+				if lr.consec == 0 {
+					lr.consecLook = (lr.lastH != nil && *lr.lastH) || (lr.k > 0 && !lr.sawEnd)
+				}
+				lr.consec++
+				lr.k, lr.lastH, lr.sawEnd = 0, nil, false
 			}
-			if err != nil {
-				return vstat.V("mixer:reset-failed", "%s: Reset returned %v although every leaf can be reset%s", where, err, flakyNote(lr.flakies...))
-			}
-			lr.recovered(info)
-			if lr.root.depth >= 2 {
-				info.ResetNested = true
-			}
-			lr.k, lr.lastH, lr.sawEnd = 0, nil, false
 		default:
-			panic("bad call " + string(prog[p]))
+			panic("bad call " + string(tk.ch))
 		}
 	}
 	return nil
+}
+
+// endConsec classifies the consecutive successful Resets that a HasNext/Next now follows.
+func (lr *liveRound) endConsec(info *SessionInfo) {
+	if lr.consec >= 2 {
+		info.ResetRun = true
+		if lr.consec >= 255 {
+			info.LongResetRun = true
+		}
+		if lr.consec%256 == 0 {
+			info.ResetRunMult256 = true
+			if lr.consecLook {
+				info.ResetRunMult256Look = true
+			}
+			if lr.root.depth >= 2 {
+				info.ResetRunMult256Nested = true
+			}
+		}
+	}
+	lr.consec, lr.consecLook = 0, false
 }
 
 // finish runs the late program, drains (unless Partial) and closes the round.
@@ -503,6 +551,7 @@ func (lr *liveRound) finish(info *SessionInfo) *vstat.Violation {
 		lr.k, lr.lastH, lr.sawEnd = 0, nil, false
 	}
 	if !lr.r.Partial && !lr.dead && !lr.limbo {
+		lr.endConsec(info)
 		lr.lastH = nil
 		for step := 0; ; step++ {
 			more := lr.k < len(lr.want)
@@ -717,6 +766,11 @@ func (i SessionInfo) Classes() []string {
 	add(i.ResetRecovered, "session_accepted_reset_after_a_failed_one")
 	add(i.RecoveredAfterRead, "session_accepted_reset_after_a_failed_one_with_calls_in_between")
 	add(i.RecoveredNested, "session_accepted_reset_after_a_failed_one_on_nested_tree")
+	add(i.ResetRun, "session_consecutive_successful_resets_then_read")
+	add(i.LongResetRun, "session_ge_255_consecutive_successful_resets_then_read")
+	add(i.ResetRunMult256, "session_consecutive_successful_resets_multiple_of_256")
+	add(i.ResetRunMult256Look, "session_consecutive_successful_resets_multiple_of_256_begun_on_loaded_lookahead")
+	add(i.ResetRunMult256Nested, "session_consecutive_successful_resets_multiple_of_256_on_nested_tree")
 	add(i.SelCalls > 0, "session_selector_consulted")
 	add(i.Emitted >= 20, "session_emitted_ge_20")
 	return c
